@@ -4,6 +4,7 @@ package e4
 
 import (
 	"fmt"
+	"path"
 	"regexp"
 	"sort"
 	"strings"
@@ -282,7 +283,7 @@ func Wants(p *prog.Program, pkg string) []string {
 				}
 				// a diagnostic whose position a //line directive moves: "// wantat <file>:<line> CODE"
 				if m := wantAtRe.FindStringSubmatch(l); m != nil {
-					out = append(out, fmt.Sprintf("%s/%s:%s:%s", dir, m[1], m[2], m[3]))
+					out = append(out, fmt.Sprintf("%s:%s:%s", path.Clean(dir+"/"+m[1]), m[2], m[3])) // a relative name may lead into ANOTHER package's file
 				}
 			}
 		}
@@ -723,6 +724,8 @@ func generated(t *lib.T) {
 	t.F = 2 // wantat grammar.y:41 IMM01
 //line gen.go:900
 	t.G-- // wantat gen.go:900 IMM03
+//line ../app/app.go:6
+	t.F = 4 // wantat ../app/app.go:6 IMM01
 }
 `}, {Name: "plain.go", Src: `package gen
 
